@@ -11,6 +11,10 @@
 #include <string.h>
 #include <m4ri/m4ri.h>
 
+/* harness-side allocation that the allocator wrapper does not count */
+void *vx_malloc(size_t n);
+void vx_free(void *p);
+
 /* ---------- packed reference matrices ---------- */
 typedef struct { int r, c, w; uint64_t *d; } pm;
 pm *pm_new(int r, int c);
